@@ -76,9 +76,11 @@ Definition confirm_clause (spec : pstate -> list (string * form)) (ops : list op
            (key : string) (e : env) : confirm :=
   match run ops with
   | RunOk (Some st) =>
-      match find (fun kf => String.eqb (fst kf) key) (spec st) with
-      | Some (_, f) => CfResult (feval e f) (forallb (fun gf => feval e (snd gf)) (initialize st))
-      | None => CfNoClause end
+      (* several clauses may share one key (one per window, per pair ...): the key holds when all of them do *)
+      match filter (fun kf => String.eqb (fst kf) key) (spec st) with
+      | [] => CfNoClause
+      | l => CfResult (forallb (fun kf => feval e (snd kf)) l) (forallb (fun gf => feval e (snd gf)) (initialize st))
+      end
   | _ => CfNoRun
   end.
 
